@@ -577,6 +577,30 @@ def sound_job(job):
                     (b"\x00" + sig, "sig-leading-zero")):
         v, exc = call(verify, s2, msg)
         recs.append(dict(base, kind="mutant", cls=cls, v=v, exc=exc))
+    # degenerate (r, s) pairs and RSA signature representatives: 0, 1, order-1, order, order+1
+    if kt in ("dsa", "ecdsa"):
+        order = int(key.q) if kt == "dsa" else int(key.private_key.curve.order)
+
+        def der_int(n):
+            bs = n.to_bytes((n.bit_length() + 8) // 8 or 1, "big")
+            return b"\x02" + (bytes([len(bs)]) if len(bs) < 128 else b"\x81" + bytes([len(bs)])) + bs
+
+        def der_sig(r, s_):
+            body = der_int(r) + der_int(s_)
+            return b"\x30" + (bytes([len(body)]) if len(body) < 128 else b"\x81" + bytes([len(body)])) + body
+        edge = [0, 1, 2, order - 1, order, order + 1]
+        for r_ in edge:
+            for s_ in edge:
+                v, exc = call(verify, der_sig(r_, s_), msg)
+                recs.append(dict(base, kind="mutant", cls="sig-degenerate-r%s-s%s" % (
+                    {0: "0", 1: "1", 2: "2"}.get(r_, "q%+d" % (r_ - order)), {0: "0", 1: "1", 2: "2"}.get(s_, "q%+d" % (s_ - order))),
+                    v=v, exc=exc))
+    if kt in ("rsa", "rsa-pss"):
+        k = (int(key.n).bit_length() + 7) // 8
+        for val, nm in ((0, "0"), (1, "1"), (int(key.n) - 1, "n-1"), (int(key.n), "n"), (int(key.n) + 1, "n+1")):
+            if val.bit_length() <= 8 * k:
+                v, exc = call(verify, val.to_bytes(k, "big"), msg)
+                recs.append(dict(base, kind="mutant", cls="sig-degenerate-" + nm, v=v, exc=exc))
     if h:
         for h2 in ("sha1", "sha256", "sha384", "sha512", "sha224", "md5"):
             if h2 != h and not (kt == "dsa" and False):
